@@ -296,3 +296,29 @@ def hidden_state(rep, rule, w, terms, allowed):
     else:
         rep.ok(rule, w, "the result is a function of self.%s and the arguments only" % ", self.".join(sorted(allowed)))
     return extra
+
+
+def no_foreign_writes(rep, prog, qname, rule="OWN"):
+    """the function writes only objects it allocated itself: not its arguments, not the model, not arrays handed
+    back by user callables (which may be storage the callable keeps)"""
+    from .. import own as OW
+    f = need(prog, qname)
+    O = OW.Own(prog)
+    try:
+        summ, _ = OW.analyse_entry(O, f)
+    except Inconclusive as e:
+        rep.unk(rule + ".writes", fwhere(f), "ownership analysis left the modelled fragment: %s" % e.why)
+        return
+    bad = 0
+    for w in summ.effects:
+        if isinstance(w, OW.Write):
+            owned = [l for l in OW.caller_owned(w.labels) if not (OW.strip_maybe(l)[0] in ("S", "SE") and f.name == "__init__")]
+            if owned:
+                bad += 1
+                l = sorted(owned, key=str)[0]
+                what = {"P": "parameter", "PE": "an element of parameter", "S": "self attribute", "SE": "an element of self attribute", "D": "the default of",
+                        "G": "module-level object", "U": "the array returned by the user's callable"}[OW.strip_maybe(l)[0]]
+                rep.bad(rule + ".writes", {"file": w.site[3], "line": w.site[1], "function": w.site[0], "construct": w.site[2]},
+                        "%s %s %s `%s`" % (w.how, "may write" if l[0].endswith("?") else "writes", what, l[1]))
+    if not bad:
+        rep.ok(rule + ".writes", fwhere(f), "%s writes only arrays it allocated itself" % f.name)
